@@ -339,7 +339,7 @@ theorem Fld.translate_emb [Zero K] (f : Fld K) (d0 d1 r c : Int) :
   have e2 : c - (f.extent.shift d0 d1).cmin = c - d1 - f.extent.cmin := by simp only [Extent.shift]; omega
   rw [e1, e2]
 
-theorem sumList_map [Add K] [Zero K] {α β} (l : List α) (g : α → β) (f : β → K) :
+theorem sumList_map_comp [Add K] [Zero K] {α β} (l : List α) (g : α → β) (f : β → K) :
     sumList (l.map g) f = sumList l (fun x => f (g x)) := by
   unfold sumList; rw [List.foldl_map]
 
